@@ -420,3 +420,32 @@ def validation_anchors(body):
             if h != s and s in body.reachable(h) and h in body.reachable(s) and mustpass(h):
                 loops.add(h)
     return len(direct), len(loops)
+
+
+def validation_anchor_total(F, fn, depth=2, seen=None):
+    """must-pass validation anchors of fn, plus those of the fallible same-crate helpers that every successful
+    path calls with the result kept (so extracting checks into a helper does not lower the total)"""
+    seen = seen if seen is not None else set()
+    if fn["id"] in seen or "mir" not in fn:
+        return 0
+    seen.add(fn["id"])
+    body = Body(fn)
+    d, l = validation_anchors(body)
+    total = d + l
+    if depth > 0:
+        oks = ok_exits(body) if returns_result(body) else body.return_blocks()
+        crate = fn["id"].lstrip("<").split("::", 1)[0]
+        for bb, t in body.calls():
+            if t["k"] != "call" or disc.result_err_type(t.get("rt", "")) is None:
+                continue
+            cn = callee(t) or ""
+            if not cn.lstrip("<").startswith(crate + "::"):
+                continue
+            if not (oks and all(e not in body.reachable(0, removed_blocks=[bb]) for e in oks)):
+                continue
+            if not t["dest"][1] and disc.classify(body, t["dest"][0])[0] == "discarded":
+                continue
+            g = F.resolve(cn)
+            if g is not None:
+                total += validation_anchor_total(F, g, depth - 1, seen)
+    return total
